@@ -59,19 +59,33 @@ Proof. destruct t; unfold add_used; cbn. now rewrite Z.add_0_r. Qed.
 Lemma add_used_add a b t : add_used b (add_used a t) = add_used (a + b) t.
 Proof. unfold add_used; cbn. now rewrite Z.add_assoc. Qed.
 
-(* token c is the same in s' as in s except that `used` moved by d *)
+(* token c in s' is token c of s with `used` moved by at least d (and possibly revoked) *)
 Definition bump1 (c : nat) (s s' : st) (d : Z) : Prop :=
-  forall t, tget c s = Some t -> tget c s' = Some (add_used d t).
+  forall t, tget c s = Some t -> exists t', tget c s' = Some t' /\ tok_le (add_used d t) t'.
+Lemma tok_le_add d a b : tok_le a b -> tok_le (add_used d a) (add_used d b).
+Proof. unfold tok_le, add_used; cbn. intros (A1&A2&A3&A4&A5&A6&A7&A8&A9); repeat split; auto; lia. Qed.
 Lemma bump1_refl c s : bump1 c s s 0.
-Proof. intros t H. now rewrite add_used_0. Qed.
+Proof. intros t H. exists t. split; auto. rewrite add_used_0. apply tok_le_refl. Qed.
 Lemma bump1_trans c s1 s2 s3 d1 d2 : bump1 c s1 s2 d1 -> bump1 c s2 s3 d2 -> bump1 c s1 s3 (d1 + d2).
-Proof. intros H1 H2 t H. apply H1 in H. apply H2 in H. now rewrite add_used_add in H. Qed.
+Proof.
+  intros H1 H2 t H. destruct (H1 _ H) as (t1&E1&L1). destruct (H2 _ E1) as (t2&E2&L2). exists t2. split; auto.
+  eapply tok_le_trans; [|exact L2]. rewrite <- add_used_add. now apply tok_le_add.
+Qed.
 Lemma bump1_upd_same c s d : bump1 c s (upd_tok c (add_used d) s) d.
-Proof. intros t H. unfold tget, upd_tok in *; cbn. now rewrite nth_upd_same, H. Qed.
+Proof. intros t H. unfold tget, upd_tok in *; cbn. rewrite nth_upd_same, H. cbn. eauto using tok_le_refl. Qed.
 Lemma bump1_upd_other c c' f s : c' <> c -> bump1 c s (upd_tok c' f s) 0.
-Proof. intros N t H. unfold tget, upd_tok in *; cbn. rewrite nth_upd_other by auto. now rewrite add_used_0. Qed.
+Proof.
+  intros N t H. unfold tget, upd_tok in *; cbn. rewrite nth_upd_other by auto. rewrite add_used_0. eauto using tok_le_refl.
+Qed.
+Lemma bump1_upd_revoke c c' s : bump1 c s (upd_tok c' revoke_t s) 0.
+Proof.
+  intros t H. rewrite add_used_0. destruct (ext_upd_revoke c' s c t H) as (t'&E&L). eauto.
+Qed.
 Lemma bump1_ext c s s' d t : bump1 c s s' d -> 0 <= d -> tget c s = Some t -> exists t', tget c s' = Some t' /\ tok_le t t'.
-Proof. intros B D H. exists (add_used d t). split; [now apply B|now apply tok_le_used]. Qed.
+Proof.
+  intros B D H. destruct (B _ H) as (t'&E&L). exists t'. split; auto.
+  eapply tok_le_trans; [|exact L]. now apply tok_le_used.
+Qed.
 
 (* what a successful mint does *)
 Lemma mint_ok s gi cls based sc mx mints e s' id :
@@ -99,12 +113,102 @@ Lemma bump1_mint_based s gi cls b sc mx mints e s' id :
   mint s gi cls (Some b) sc mx mints e = Ok (s', id) -> bump1 b s s' 1.
 Proof.
   intros H. apply mint_ok in H as (_&_&_&_&(tn&Et&_)&_&_). intros t Ht. unfold tget in *. rewrite Et.
-  apply nth_app_old. now rewrite nth_upd_same, Ht.
+  exists (add_used 1 t). split; [|apply tok_le_refl]. apply nth_app_old. now rewrite nth_upd_same, Ht.
 Qed.
 Lemma bump1_mint_other c s gi cls based sc mx mints e s' id :
   mint s gi cls based sc mx mints e = Ok (s', id) -> based <> Some c -> bump1 c s s' 0.
 Proof.
   intros H N. apply mint_ok in H as (_&_&_&_&(tn&Et&_)&_&_). intros t Ht. unfold tget in *. rewrite Et.
-  apply nth_app_old. rewrite add_used_0. destruct based as [b|]; auto.
+  exists t. rewrite add_used_0. split; [|apply tok_le_refl].
+  apply nth_app_old. destruct based as [b|]; auto.
   rewrite nth_upd_other; auto; intros ->; now apply N.
+Qed.
+
+(* ------------------------------------------------------------------ the token endpoint helpers *)
+(* destruct the innermost scrutinee first *)
+Ltac dm :=
+  match goal with
+  | |- context [match ?x with _ => _ end] =>
+      lazymatch x with
+      | context [match _ with _ => _ end] => fail
+      | _ => destruct x eqn:?
+      end
+  end.
+
+Ltac bump_chain :=
+  lazymatch goal with
+  | |- bump1 ?c ?s ?s _ => apply bump1_refl
+  | |- bump1 ?c ?s (upd_tok ?c (add_used ?d) ?y) _ => eapply bump1_trans; [| apply bump1_upd_same]; bump_chain
+  | |- bump1 ?c ?s (upd_tok ?c' revoke_t ?y) _ => eapply bump1_trans; [| apply bump1_upd_revoke]; bump_chain
+  | |- bump1 ?c ?s (upd_tok ?c' _ ?y) _ => eapply bump1_trans; [| apply bump1_upd_other; congruence]; bump_chain
+  | |- bump1 ?c ?s ?x _ =>
+      match goal with
+      | H : mint ?y _ _ (Some c) _ _ _ _ = Ok (x, _) |- _ =>
+          eapply bump1_trans; [| eapply bump1_mint_based; exact H]; bump_chain
+      | H : mint ?y _ _ _ _ _ _ _ = Ok (x, _) |- _ =>
+          eapply bump1_trans; [| eapply bump1_mint_other; [exact H | congruence]]; bump_chain
+      end
+  end.
+
+Ltac bump_done := cbn [fst]; eexists; split; cycle 1; [bump_chain | lia].
+
+Lemma code_process_bump c s cl code redir kw k :
+  exists d, 0 <= d /\ bump1 k s (fst (do_code_process c s cl code redir kw)) d.
+Proof.
+  unfold do_code_process. cbv zeta.
+  destruct (Nat.eq_dec code k) as [<-|N]; repeat dm; subst; bump_done.
+Qed.
+
+Lemma refresh_process_bump c s cl tok rsc kw k :
+  exists d, 0 <= d /\ bump1 k s (fst (do_refresh_process c s cl tok rsc kw)) d.
+Proof.
+  unfold do_refresh_process. cbv zeta.
+  destruct (Nat.eq_dec tok k) as [<-|N]; repeat dm; subst; bump_done.
+Qed.
+
+Lemma bump_all_ext s s' : (forall k, exists d, 0 <= d /\ bump1 k s s' d) -> ext s s'.
+Proof. intros H k t Ht. destruct (H k) as (d&D&B). eauto using bump1_ext. Qed.
+
+Lemma process_ext c s idx kw : ext s (fst (do_process c s idx kw)).
+Proof.
+  unfold do_process. destruct (nth_error (parsed s) idx) as [[e|cl code redir|cl tok sc]|]; cbn [fst]; try apply ext_refl.
+  - apply bump_all_ext. intros k. apply code_process_bump.
+  - apply bump_all_ext. intros k. apply refresh_process_bump.
+Qed.
+
+Lemma find_tok_tget id s g t : find_tok id s = Some (g, t) -> tget id s = Some t /\ nth_error (grants s) (t_grant t) = Some g.
+Proof.
+  unfold find_tok, tget. destruct (nth_error (toks s) id) as [t0|]; [|discriminate].
+  destruct (nth_error (grants s) (t_grant t0)) as [g0|] eqn:E; [|discriminate]. intros H; inversion H; subst. auto.
+Qed.
+Lemma find_in_tget gi id ts t : find_in gi id ts = Some t -> nth_error ts id = Some t /\ t_grant t = gi.
+Proof.
+  unfold find_in. destruct (nth_error ts id) as [t0|]; [|discriminate].
+  destruct (Nat.eqb (t_grant t0) gi) eqn:E; [|discriminate]. intros H; inversion H; subst. apply Nat.eqb_eq in E. auto.
+Qed.
+
+(* a successful code exchange: what was true before, and what is true after *)
+Lemma code_process_success c s cl code redir kw s' a r i sc :
+  do_code_process c s cl code redir kw = (s', OTokens a r i sc) ->
+  exists g t rd,
+    find_tok code s = Some (g, t) /\ str_eqb (g_client g) cl = true /\
+    redir = Some rd /\ str_eqb rd (g_redirect g) = true /\
+    tok_active (now s) t = true /\ supports_minting t Access = true /\ grant_active (now s) g = true /\
+    sc = g_scope g /\ a <> None /\
+    exists d, 1 <= d /\ bump1 code s s' d.
+Proof.
+  unfold do_code_process. cbv zeta.
+  repeat dm; subst; intros H; inversion H; subst; clear H;
+    match goal with
+    | Hm : mint ?s (t_grant ?t) Access (Some ?code) _ _ _ _ = Ok _, Hf : find_tok ?code ?s = Some (?g, ?t) |- _ =>
+        pose proof Hm as Hm'; apply mint_ok in Hm' as (_&_&_&_&_&(g0&Hg0&Hga)&Hb);
+        destruct (Hb _ eq_refl) as (bt&Hbt&Hsup&Hact);
+        apply find_in_tget in Hbt as (Hbt&_);
+        pose proof (find_tok_tget _ _ _ _ Hf) as (Ht&Hg);
+        unfold tget in Ht; rewrite Ht in Hbt; inversion Hbt; subst bt;
+        rewrite Hg in Hg0; inversion Hg0; subst g0
+    end;
+    (do 3 eexists; repeat split; eauto;
+     [ apply negb_false_iff; assumption | apply negb_false_iff; assumption | discriminate
+     | eexists; split; cycle 1; [bump_chain | lia] ]).
 Qed.
